@@ -32,15 +32,19 @@ def make_eval_trace(job):
     g = Gen(seed, profile, **opts.get("gen", {}))
     defs = g.program()
     w = World(defs, maxdepth=opts.get("maxdepth"), recalc=opts.get("recalc", False))
+    # every third history is observed quietly (values and graphs only, read from the raw
+    # containers): looking at definitions after every operation refreshes lazy state
+    quiet = opts.get("quiet", seed % 3 == 0)
     try:
         hdr = {"init": defs, "pdefs": w.project_defs(), "seed": seed, "profile": profile,
                "recalc": bool(opts.get("recalc", False))}
         if opts.get("maxdepth"):
             hdr["maxdepth"] = opts["maxdepth"]
         evs = []
+        w.quiet = quiet
         for _ in range(nops):
             op = g.next_op()
-            ev = w.apply(op, deep=opts.get("deep", True))
+            ev = w.apply(op, deep=opts.get("deep", True) and not quiet)
             g.update(op, ev["res"], ev)
             evs.append(ev)
         if opts.get("final_sweep", True):
@@ -96,14 +100,16 @@ def make_dyn_trace(job):
     seed, profile, nops, opts = job
     g = GenDyn(seed, profile, **opts.get("gen", {}))
     defs = g.program()
-    w = World(defs, track_handles=True, recalc=opts.get("recalc", False))
+    quiet = opts.get("quiet", seed % 2 == 0)       # (see make_eval_trace)
+    w = World(defs, track_handles=not quiet, recalc=opts.get("recalc", False))
     try:
         hdr = {"init": defs, "pdefs": w.project_defs(), "seed": seed, "profile": profile,
                "recalc": bool(opts.get("recalc", False)), "checkdefs": False, "world": "dyn"}
         evs = []
+        w.quiet = quiet
         for _ in range(nops):
             op = g.next_op()
-            ev = w.apply(op, deep=True)
+            ev = w.apply(op, deep=not quiet)
             g.update(op, ev["res"], ev)
             evs.append(ev)
         # final sweep over instances that exist
